@@ -168,6 +168,30 @@ def handle : Handler := fun st op j =>
     match createDisclosureProof pk sig attrs disclosed rnd (← getInt j "context") (← getInt j "nonce") (← getBool j "issig") with
     | .error _ => pure (st, "panic")
     | .ok p => pure (st, canonD p)
+  | "rp-proves" => some do
+    let n ← getNat j "ncs"
+    let sgn ← getInt j "sign"
+    let av ← getNat j "a"
+    let kv ← getOptInt j "k"
+    let rp : RangeProof := { cs := List.replicate n (some 1), ds := [], vs := [], v5 := none, ld := 0, sign := sgn, a := av, k := kv }
+    pure (st, toString (rp.provesStatement (← getInt j "qsign") (← getNat j "qfactor") (← getInt j "qbound")))
+  | "rp-proven" => some do
+    let n ← getNat j "ncs"
+    let sgn ← getInt j "sign"
+    let av ← getNat j "a"
+    let kv ← getOptInt j "k"
+    let rp : RangeProof := { cs := List.replicate n (some 1), ds := [], vs := [], v5 := none, ld := 0, sign := sgn, a := av, k := kv }
+    pure (st, match rp.provenStatement with
+      | some (sgn, f, b) => s!"{sgn} {f} {hexOfInt b}"
+      | none => "panic")
+  | "rp-complete" => some do
+    -- can the honest prover build the proof?  (CommitmentsFromSecrets preconditions)
+    let sign ← getInt j "sign"
+    let factor ← getNat j "factor"
+    let bound ← getInt j "bound"
+    let m ← getInt j "m"
+    let table ← getNat j "table"   -- 0 = four squares, else number of table entries (limit+1)
+    pure (st, if rangeProvable sign factor bound m table then "ok accept proves" else "err")
   | "verifyU" => some do
     let pk ← st.key (← getStr j "key")
     let ctx ← getInt j "context"
